@@ -210,6 +210,11 @@ int main(void) {
 	for (int k = 0; k <= KEV; k++) for (int t = 0; t < R_NT; t++) { in_matched[k][t] = IN(nondet_uchar(), rv_matched[k][t]) & 1; in_cond[k][t] = IN(nondet_uchar(), rv_cond[k][t]) & 1; cex_matched[k][t] = in_matched[k][t]; cex_cond[k][t] = in_cond[k][t]; }
 	for (int s = 0; s < R_NS; s++) for (int b = 0; b < 2; b++) { in_failN[s][b] = IN(nondet_uchar(), rv_failN[s][b]) & 1; in_failX[s][b] = IN(nondet_uchar(), rv_failX[s][b]) & 1; cex_failN[s][b] = in_failN[s][b]; cex_failX[s][b] = in_failX[s][b]; }
 	for (int t = 0; t < R_NT; t++) { in_failT[t] = IN(nondet_uchar(), rv_failT[t]) & 1; cex_failT[t] = in_failT[t]; }
+#ifdef NO_FAIL
+	/* baseline of the C07 differential: no element of executable content fails */
+	for (int s = 0; s < R_NS; s++) for (int b = 0; b < 2; b++) { in_failN[s][b] = 0; in_failX[s][b] = 0; cex_failN[s][b] = 0; cex_failX[s][b] = 0; }
+	for (int t = 0; t < R_NT; t++) { in_failT[t] = 0; cex_failT[t] = 0; }
+#endif
 	in_iq = IN(nondet_int(), rv_iq); in_eq = IN(nondet_int(), rv_eq);
 	__CPROVER_assume(in_iq >= 0 && in_iq <= KEV && in_eq >= 0 && in_eq <= KEV);
 	cex_iq = in_iq; cex_eq = in_eq;
